@@ -138,6 +138,16 @@ def _get_next_unique_id(id_: str) -> str:
     return id_
 
 
+def _unregister(node: ASTNode) -> bool:
+    """Remove the node from the registry, but only if the entry under its id is this
+    very node (a detached node's id may meanwhile belong to another live node)."""
+    if NODE_REGISTRY.get(node.id) is not node:
+        return False
+
+    del NODE_REGISTRY[node.id]
+    return True
+
+
 # Named Tuple for tree traversal functions
 class NodeTraversalInfo(NamedTuple):
     node: ASTNode
@@ -379,10 +389,10 @@ class ASTNode(DataClassSerializeMixin):
     def detach(self) -> None:
         """Removes this node and and the whole tree rooted with this node from
         the registry."""
-        NODE_REGISTRY.pop(self.id, None)
+        _unregister(self)
 
         for ni in self.dfs():
-            NODE_REGISTRY.pop(ni.node.id, None)
+            _unregister(ni.node)
 
     def detach_self(self) -> bool:
         """Removes this node from the registry.
@@ -390,7 +400,7 @@ class ASTNode(DataClassSerializeMixin):
         Returns:
             bool: True if the node was removed, False if it was not in the registry
         """
-        return NODE_REGISTRY.pop(self.id, None) is not None
+        return _unregister(self)
 
     def replace(self: ASTNodeType, **kwargs: Any) -> ASTNodeType:
         """Replaces this node in the registry with a new one with the given
@@ -414,13 +424,13 @@ class ASTNode(DataClassSerializeMixin):
         Returns:
             ASTNodeType: The new node
         """
-        ori_n = NODE_REGISTRY.pop(self.id, None)
+        was_registered = _unregister(self)
 
         try:
             new_node = replace(self, **kwargs)
         except Exception as e:
-            if ori_n is not None:
-                NODE_REGISTRY[ori_n.id] = ori_n
+            if was_registered:
+                NODE_REGISTRY[self.id] = self
 
             raise e
 
